@@ -18,7 +18,7 @@ TEXT = {
                  "what the implementation did.",
         "design_ref": "DESIGN.md §5 C01",
         "note": NOTE_SYNC,
-        "technique": "Lean 4 proof (invariant by induction over a small-step sync machine; TP1/rebase lemmas) + correspondence check",
+        "technique": "Lean 4 proof (invariant by induction over a small-step sync machine; TP1/rebase lemmas) + source translation of SyncOp::transform proved equal to the model's (regenerated from src/server/op.rs on every run) + correspondence check",
     },
     "C02": {
         "level": "Lean theorems over every interleaving (single server requests of any number of concurrent syncs, commits, aborts): no "
@@ -30,7 +30,7 @@ TEXT = {
                  "and result with the model.",
         "design_ref": "DESIGN.md §5 C02",
         "note": NOTE_SYNC,
-        "technique": "Lean 4 proof (small-step interleaving semantics, invariant) + stepped correspondence check",
+        "technique": "Lean 4 proof (small-step interleaving semantics, invariant) + source translation of SyncOp::transform (src/server/op.rs, regenerated on every run) proved equal to the model's + stepped correspondence check",
     },
     "C04": {
         "level": "Lean theorems: abort at any point restores the committed replica record; the replica invariant holds in every reachable "
@@ -40,7 +40,7 @@ TEXT = {
                  "SQLite) and comparing with the model; the Lean judge recomputes the invariant from stored data.",
         "design_ref": "DESIGN.md §5 C04",
         "note": NOTE_SYNC + " SQLite rollback of an uncommitted transaction is trusted (C06).",
-        "technique": "Lean 4 proof (fault transitions in the sync machine, self-cancel lemma) + fault-injection correspondence check",
+        "technique": "Lean 4 proof (fault transitions in the sync machine, self-cancel lemma) + source translation of SyncOp::transform (src/server/op.rs, regenerated on every run) proved equal to the model's + fault-injection correspondence check",
     },
     "C12": {
         "level": "Lean theorems: in every reachable state the server's snapshot for version v equals the replay of the chain up to v, and so "
@@ -61,7 +61,7 @@ TEXT = {
                  "(partial): it is covered by running every sync order of generated three-replica conflict groups on the implementation.",
         "design_ref": "DESIGN.md §5 C03",
         "note": NOTE_SYNC,
-        "technique": "Lean 4 proof (algebraic laws of transform/rebase, decision table) + all-sync-orders correspondence check",
+        "technique": "Lean 4 proof (algebraic laws of transform/rebase, decision table) + source translation of SyncOp::transform (src/server/op.rs, regenerated on every run) proved equal to the model's + all-sync-orders correspondence check",
     },
     "C05": {
         "level": "Lean theorems for every batch (valid or not) and prior state: the cached batch application of apply_operations equals "
@@ -196,15 +196,18 @@ TEXT = {
         "technique": "Lean 4 proof (event-sequence invariant over ChainSrv; reuse of the sync-machine theorems) + fault-injection correspondence check on four backend configurations",
     },
     "C14": {
-        "level": "PARTIAL. Lean theorems: the document sent is a function of the synchronized part of the operations only — batches differing only in previous values or "
+        "level": "Lean theorems: the document sent is a function of the synchronized part of the operations only — batches differing only in previous values or "
                  "deleted tasks' contents send the same characters (C14_old_values_never_leave), undo points are dropped and order kept, every other operation is sent; the "
-                 "document has exactly the documented shape and fields (C14_document_shape); every string survives print-then-parse whatever characters it holds "
-                 "(C14_string_roundtrip), and so does every 128-bit task id (C14_uuid_roundtrip). The whole-document round trip (uuid / RFC 3339 printers against their parsers) is NOT a theorem: it is evaluated by the kernel on an "
-                 "example and checked on every run. Tied to the code by running the real encoder and decoder (same serde path as TaskDb::sync) against the model's independent "
-                 "printer and reader on generated batches, on documents from a foreign writer, and on malformed documents; and by judging every version real syncs send.",
-        "design_ref": "DESIGN.md §5 C14",
-        "note": "Trusted: Lean kernel + standard axioms; serde_json/chrono/uuid exercised not modelled; decode/encode hook mirrors TaskDb::sync's two serde calls.",
-        "technique": "Lean 4 proof (non-interference and shape by definition unfolding; string escape round trip by induction) + bidirectional correspondence check of encoder and decoder",
+                 "document has exactly the documented shape and fields (C14_document_shape); the conversion that decides what leaves is the source's SyncOp::from_op, "
+                 "translated from src/server/op.rs on every run (C14_source_from_op); and the WHOLE DOCUMENT is read back exactly by the reader of the documented format: "
+                 "decodeVersion (printVersion ops) = some ops for all 128-bit task ids, all property names and values (any characters), all instants of the years 0000-9999 with "
+                 "nanosecond resolution (C14_document_roundtrip; ingredients C14_timestamp_roundtrip — civil-date inverse via monotonicity of the year formula and a 400-row "
+                 "kernel table —, C14_string_roundtrip, C14_uuid_roundtrip, fuel of the generic reader). PARTIAL only in that serde_json/chrono/uuid printing exactly "
+                 "printVersion is checked, not proved: tied to the code by running the real encoder and decoder (same serde path as TaskDb::sync) against the model's "
+                 "independent printer and reader on generated batches, on documents from a foreign writer, and on malformed documents; and by judging every version real syncs send.",
+        "design_ref": "DESIGN.md §5 C14, Build report B.8",
+        "note": "Trusted: Lean kernel + standard axioms; serde_json/chrono/uuid exercised not modelled; decode/encode hook mirrors TaskDb::sync's two serde calls; tools/translate_src.py for from_op.",
+        "technique": "Lean 4 proof (non-interference and shape by definition unfolding; print/parse round trip of strings, uuids, RFC 3339 timestamps and whole documents by induction, omega and one 400-row kernel-evaluated table) + source translation of SyncOp::from_op + bidirectional correspondence check of encoder and decoder",
     },
     "C17": {
         "level": "PARTIAL. Lean theorems about the serial semantics: for every sequence of one-at-a-time successful transactions from any handles — commits of arbitrary "
